@@ -18,7 +18,9 @@ var (
 func ReadPreface(br io.Reader) bool {
 	b := make([]byte, prefaceLen)
 
-	n, err := br.Read(b[:prefaceLen])
+	// Read returns what has arrived, and the preface need not arrive in one
+	// piece.
+	n, err := io.ReadFull(br, b[:prefaceLen])
 	if err == nil && n == prefaceLen {
 		if bytes.Equal(b, http2Preface) {
 			return true
